@@ -146,3 +146,40 @@ class parameter_elasticities:
             fresh(elasticities),
         ],
     }
+
+
+# variable_elasticities perturbs one variable at a time in a COPY of the state
+# (`variables | {var: ...}`); proved: on normal return every parameter record holds its
+# entry value, the name space is unchanged and a state dict handed in by the caller holds
+# what it held on entry (the clause "initial conditions as it found them" for the
+# caller's own dict).
+@contract("mxlpy.model:Model.get_variable_names")
+class get_variable_names:
+    trusted = "reads the model's variable dict; only the frame is used (writes nothing)"
+    may_raise = (Exception,)
+    ensures = lambda self, result: True
+    modifies = lambda self: []
+
+
+@contract("mxlpy.mca:variable_elasticities")
+class variable_elasticities:
+    requires = lambda model, to_scan, variables, time, normalized, displacement: (
+        Wf(model) and records_distinct(model) and implies(not (variables is None), dict_wf(variables))
+    )
+    may_raise = (Exception,)
+    ensures = lambda model, to_scan, variables, time, normalized, displacement, result: [
+        values_kept(model),
+        content_same(model),
+        Wf(model),
+        implies(not (variables is None), unchanged(variables)),
+    ]
+    modifies = lambda model, to_scan, variables, time, normalized, displacement: [field(model, "_cache")]
+    loops = {
+        1: lambda model, to_scan, variables, elasticities: [
+            values_kept(model),
+            content_same(model),
+            Wf(model),
+            fresh(elasticities),
+            implies(not (old(variables) is None), variables is old(variables) and unchanged(variables)),
+        ],
+    }
